@@ -371,3 +371,14 @@ Proof. vm_compute. auto. Qed.
 Lemma repaired_witnesses_lem :
   forallb (agrees (new_opts 14)) [W_if; W_while; W_for; W_exp_bigint; W_exp_valueof; W_forin; W_div0; W_ref] = true.
 Proof. vm_compute. reflexivity. Qed.
+
+(* var k = "key"; print(({[k]: false || function(){}})[k].name)  -- even the repaired folder (all six repairs on)
+   exposes the function to NamedEvaluation: "" becomes "key" *)
+Definition anon_fn : func :=
+  {| f_name := []; f_kind := FNormal; f_params := []; f_rest := None; f_body := []; f_expr_body := None; f_strict := false; f_uses_args := false |}.
+Definition W_fname : prog :=
+  script [anon_fn]
+    [SDecl KVar [(PId (S "k"), Some (EStr (S "key")))];
+     SExpr (call1 (S "print") (EMember (EIndex (EParen (EObject [PInit (PKComputed (EId (S "k"))) (ELogical LOr (EBool false) (EFunc 0))])) (EId (S "k")) false) (S "name") false))].
+Lemma fold_logical_function_name_refuted_lem : differs (new_opts 2) W_fname = true.
+Proof. vm_compute. reflexivity. Qed.
